@@ -28,6 +28,7 @@ type Opts struct {
 	T4     time.Duration
 	Net    *sim.Net // default: the world's network
 	Conn   []hsms.ConnOption
+	Extra  []secs1.Option // further transport options (e.g. secs1.WithConnectTimeout)
 	// OnData, if set, is called inline (on the line-engine goroutine) after the delivery
 	// has been logged.
 	OnData func(m *hsms.DataMessage, ep hsms.SECS2Endpoint)
@@ -89,6 +90,7 @@ func New(w *e2.World, o Opts) *Node {
 	for _, c := range co {
 		opts = append(opts, secs1.WithConnectionOption(c))
 	}
+	opts = append(opts, o.Extra...)
 	cfg, err := secs1.NewConfig("127.0.0.1", 5000, opts...)
 	if err != nil {
 		panic(fmt.Sprintf("e2s1: NewConfig: %v", err))
